@@ -128,10 +128,11 @@ def run_cases(modname, cases, repo, jobs=None, retry=True):
     logdir = tempfile.mkdtemp(prefix="run_", dir=os.path.join(VERIF_ROOT, ".build", "logs"))
     groups = {}
     for c in cases:
-        groups.setdefault((c.get("_variant", "plain"), int(c.get("_threads", 2))), []).append(c)
-    pending = []  # (variant, threads, batch)
-    for (variant, threads), cs in groups.items():
-        nworkers = max(1, min(len(cs), (jobs or NCPU) // max(1, threads)))
+        envk = tuple(sorted((c.get("_env") or {}).items()))
+        groups.setdefault((c.get("_variant", "plain"), int(c.get("_threads", 2)), envk), []).append(c)
+    pending = []  # (variant, threads, batch, env)
+    for (variant, threads, envk), cs in groups.items():
+        nworkers = max(1, min(len(cs), (jobs or NCPU) // max(1, min(threads, NCPU))))
         # greedy balance by weight
         cs = sorted(cs, key=lambda c: -c.get("_weight", 1.0))
         bins = [[] for _ in range(nworkers)]
@@ -142,7 +143,7 @@ def run_cases(modname, cases, repo, jobs=None, retry=True):
             loads[i] += c.get("_weight", 1.0)
         for b in bins:
             if b:
-                pending.append((variant, threads, b))
+                pending.append((variant, threads, b, dict(envk)))
     results, summaries = {}, []
     running = []
     budget = jobs or NCPU
@@ -174,19 +175,20 @@ def run_cases(modname, cases, repo, jobs=None, retry=True):
                                         "oracles": {}, "tags": {}, "nontrivial": False, "key": c["id"]}
             else:
                 # the case in flight gets its own process; the rest are re-queued together
-                requeue.append((w["variant"], w["threads"], [first]))
+                requeue.append((w["variant"], w["threads"], [first], w["env"]))
                 if missing[1:]:
-                    requeue.append((w["variant"], w["threads"], missing[1:]))
-        used -= w["threads"]
+                    requeue.append((w["variant"], w["threads"], missing[1:], w["env"]))
+        used -= min(w["threads"], budget)
 
     while pending or running or requeue:
         pending.extend(requeue)
         del requeue[:]
-        while pending and (used + pending[0][1] <= budget or not running):
-            variant, threads, batch = pending.pop(0)
-            w = _spawn(modname, batch, variant, threads, logdir, repo)
+        while pending and (used + min(pending[0][1], budget) <= budget or not running):
+            variant, threads, batch, env = pending.pop(0)
+            w = _spawn(modname, batch, variant, threads, logdir, repo, extra_env=env)
             w["threads"] = threads
-            used += threads
+            w["env"] = env
+            used += min(threads, budget)
             running.append(w)
         time.sleep(0.05)
         for w in list(running):
